@@ -1,1 +1,59 @@
-fn main(){}
+//! zv: bounded exhaustive exploration of the real zeep-lib (DESIGN.md §3).
+
+mod corpus;
+mod props;
+mod report;
+mod runner;
+mod schema;
+mod seeds;
+
+fn usage() -> ! {
+    eprintln!("usage: zv check <ID> [quick|thorough] | zv replay <path> | zv gen <start> [sibling...] | zv worker | zv setup");
+    std::process::exit(2);
+}
+
+fn main() {
+    let args: Vec<String> = std::env::args().collect();
+    match args.get(1).map(|s| s.as_str()) {
+        Some("worker") => runner::worker_main(),
+        Some("setup") => props::setup(),
+        Some("gen") => {
+            runner::install_quiet_panic_hook();
+            let start = args.get(2).unwrap_or_else(|| usage());
+            let case = corpus::case_from_path(std::path::Path::new(start)).expect("readable input");
+            match runner::run_inproc(&case) {
+                runner::Outcome::Ok(s) => print!("{s}"),
+                o => {
+                    eprintln!("{}", o.brief());
+                    std::process::exit(1);
+                }
+            }
+        }
+        Some("print-seed") => {
+            let which = args.get(2).map(|s| s.as_str()).unwrap_or("kitchen");
+            let set = seeds::by_name(which);
+            for (n, t) in set.print() {
+                println!("===== {n}\n{t}");
+            }
+            runner::install_quiet_panic_hook();
+            println!("===== OUTPUT\n{}", match runner::run_inproc(&set.to_case()) { runner::Outcome::Ok(s) => s, o => o.brief() });
+        }
+        Some("check") => {
+            let id = args.get(2).unwrap_or_else(|| usage());
+            let tier = std::env::var("VERIF_TIER").ok().or_else(|| args.get(3).cloned()).unwrap_or_else(|| "quick".into());
+            if tier != "quick" && tier != "thorough" {
+                usage();
+            }
+            runner::install_quiet_panic_hook();
+            std::process::exit(props::check(id, &tier));
+        }
+        Some("replay") => {
+            let p = args.get(2).unwrap_or_else(|| usage());
+            let v: report::Violation = serde_json::from_str(&std::fs::read_to_string(p).unwrap_or_else(|e| report::machinery(&format!("read {p}: {e}"))))
+                .unwrap_or_else(|e| report::machinery(&format!("parse {p}: {e}")));
+            runner::install_quiet_panic_hook();
+            std::process::exit(props::replay(&v));
+        }
+        _ => usage(),
+    }
+}
